@@ -101,5 +101,13 @@ RECURSIVE Labellings(_, _)
 Labellings(n, mb) == IF n = 0 THEN { <<>> }
                      ELSE UNION { { Append(s, k) : k \in NextLabels(s, mb) } : s \in Labellings(n - 1, mb) }
 FamOf(lb) == [k \in 1..MaxLab(lb) |-> { p \in DOMAIN lb : lb[p] = k }]
+(* the blocks are cut only where another block overlaps: two variants u < v of a
+   block with no other block's hull meeting [u, v] stay in one piece (pieces =
+   a set of sets of positions).  Special case: a block that overlaps no other
+   block is itself a piece. *)
+KeptTogether(fam, pieces) ==
+    \A i \in FamBig(fam) : \A u, v \in fam[i] :
+        (u < v /\ \A j \in FamBig(fam) \ {i} : (FHi(fam[j]) < u \/ v < FLo(fam[j])))
+        => \E o \in pieces : u \in o /\ v \in o
 FamFree(fam, i) == \A j \in FamBig(fam) : j # i => (FHi(fam[i]) < FLo(fam[j]) \/ FHi(fam[j]) < FLo(fam[i]))
 =============================================================================
